@@ -110,6 +110,10 @@ def input_cause(case):
     used = [d for d in decl if d["usage"]]
     if any(R(d["file"]) and os.path.normpath(R(d["file"])) != R(d["file"]) or "*" in R(d["file"]) for d in used):
         return "file-part-spelled-unnormalised-or-glob"
+    if case["style"] in ("tail", "quote"):
+        return "text-glued-to-the-reference"
+    if any(d.get("rep") == "direct" for d in used):
+        return "direct-reference"
     if any(d.get("rep") == "loop" for d in used):
         return "reference-to-dowhile-placeholder"
     if any(d["kind"] == "out" and not R(d["file"]) for d in used):
@@ -147,10 +151,12 @@ class Runner:
     def run_batch(self, universe, cases):
         """one real experiment: all producers of the universe + one consumer per case"""
         sc = self.realenv.simple_component
-        producers = sorted(set((u["st"], R(u["name"])) for u in universe))
+        producers = sorted(set((u["st"], R(u["name"])) for u in universe if u.get("rep") != "direct"))
         # (repeating?, newest repetition / has run) of every producer, as the universe of the spec says
         pinfo = {}
         for u in universe:
+            if u.get("rep") == "direct":
+                continue
             pinfo.setdefault((u["st"], R(u["name"])), (u.get("rep", "no"), u.get("last", 0)))
             if pinfo[(u["st"], R(u["name"]))] != (u.get("rep", "no"), u.get("last", 0)):
                 raise MachineryError("universe of Subst.tla describes producer %s inconsistently" % R(u["name"]))
@@ -258,6 +264,10 @@ class Runner:
         valmap, valnorm = {}, {}
         for u in universe:
             st, nm = u["st"], R(u["name"])
+            if u.get("rep") == "direct":
+                # a path: absolute as it is, otherwise below the instance directory
+                valmap[u["val"]] = valnorm[u["val"]] = nm if nm.startswith("/") else os.path.join(inst, nm)
+                continue
             d = values[(st, nm)]
             fpart = R(u.get("file", []))
             if u["kind"] == "ref":
@@ -413,7 +423,8 @@ def run(tier):
                 ("RefUQuick", 2, ("plain",), False, False, ("variable", "override")),
                 ("RefUStdout", 2, ("plain", "opt"), False, False),
                 ("RefULoop2", 2, ("plain", "opt"), False, False),
-                ("RefULoop0", 2, ("plain",), False, False)]
+                ("RefULoop0", 2, ("plain",), False, False),
+                ("RefUGlue", 2, ("tail", "quote", "plain"), False, False)]
     else:
         fams = [("RefUQuick", 2, ("plain", "opt", "path"), True, True),
                 ("RefUSix", 3, ("plain",), True, False),
@@ -432,7 +443,9 @@ def run(tier):
                 ("RefUStdout", 2, ("plain",), False, False, ("variable", "override")),
                 ("RefULoop2", 2, ("plain", "opt", "path"), True, False),
                 ("RefULoop1", 3, ("plain",), False, False),
-                ("RefULoop0", 2, ("plain", "opt"), False, False)]
+                ("RefULoop0", 2, ("plain", "opt"), False, False),
+                ("RefUGlue", 2, ("tail", "quote", "plain", "opt"), True, False),
+                ("RefUGlue", 3, ("tail",), False, False)]
     runner = Runner(chk)
     total = 0
     for k, fam in enumerate(fams):
@@ -498,7 +511,7 @@ def run(tier):
                        "(names A, BA, B-A, x.A, AB, A0 in stages 0 and 1; :ref, file :ref, :output, :copy; file parts spelled with a trailing "
                        "slash, ./, //, .., globs; :output files with trailing newlines, CRLF, CR, tabs, non-ASCII, undecodable bytes, "
                        "empty, inner newlines, blanks; name:output of plain and repeating producers with 0..100 repetitions or none; declarations "
-                       "placeholder of a DoWhile producer at iteration 0..2; declarations reaching the graph rewritten by the loader, through a %(variable)s or through override.<platform>), usage (relative / absolute "
+                       "direct references by absolute path and below data/; text glued right after / quotes around a reference; placeholder of a DoWhile producer at iteration 0..2; declarations reaching the graph rewritten by the loader, through a %(variable)s or through override.<platform>), usage (relative / absolute "
                        "/ both / twice), style of the command line, plus unused / undeclared faults; every case is a consumer "
                        "component of a real instantiated experiment; traces = experiments built")
     chk.cov["exhaustive"] = True
